@@ -254,7 +254,10 @@ func (g *engineGen) plan() *PlanSpec {
 	nb := 1 + g.r.IntN(g.MaxBlocks)
 	for b := 0; b < nb; b++ {
 		bs := BlockSpec{}
-		bs.Conc = g.r.IntN(g.ConcMax + 1)                             // 0 = unset
+		bs.Conc = g.r.IntN(g.ConcMax + 1) // 0 = unset
+		if g.r.IntN(8) == 0 {
+			bs.Conc = []int{-1, -3}[g.r.IntN(2)] // below 1 means 1 (Block.Defaults), however far below
+		}
 		bs.Tol = []int{-1, 0, 0, 1, 2, -2, 0, 1, -7, 2}[g.r.IntN(10)] // any negative value tolerates every failure, not only -1
 		bs.Bypass = g.group(pc*0.4, 0.6, false)
 		bs.Pre = g.group(pc, g.PCheckBad, false)
